@@ -388,7 +388,7 @@ fn status_stub(_cmd: &mut Command) -> io::Result<std::process::ExitStatus> {
     }
 }
 
-// @harness props=C19 tier=quick cost=150 flags=nomem
+// @harness props=C19 tier=thorough cost=600 flags=nomem
 // @exec CommandBuilder::execute (argv assembly, env, stdin, classification of the child's fate)
 // @sym child wait status: exited with any code 0..255 or killed by signal 1..64; or spawn errno in {ENOENT, EACCES}
 // @bounds one invocation of a fixed one-word command without appended arguments; Command::status replaced by the symbolic outcome
@@ -852,3 +852,103 @@ fn c04_process_input_protocol() { run_process_input(false); }
 #[kani::stub(std::alloc::handle_alloc_error, hae_stub)]
 fn c04_process_input_protocol_canary() { run_process_input(true); }
 
+
+// ------------------------------------------------------------------------------------------ C04 initial arguments
+// @harness props=C04 tier=quick cost=40 flags=nomem
+// @exec CommandBuilderOptions::new (the command and its initial arguments are charged to the limiters before any input), LimiterCollection::try_arg
+// @sym -s limit (0..1000); command "cm" with one initial argument "i"; a probing argument of 1..3 bytes afterwards
+// @bounds fixed command of two words (3 + 2 bytes incl. terminators); one -s limiter
+/// Every invocation starts with the command and initial arguments counted against -s: construction fails iff they alone do not
+/// fit, and afterwards an appended argument is admitted iff command + initial arguments + it (each + 1) fit.
+#[kani::proof]
+#[kani::unwind(5)]
+#[kani::stub(alloc::fmt::format, fmt_stub)]
+#[kani::stub(std::hash::RandomState::new, keys_stub)]
+#[kani::stub(alloc::raw_vec::handle_error, he_stub)]
+#[kani::stub(std::alloc::handle_alloc_error, hae_stub)]
+fn c04_initial_args_charged() {
+    let max: usize = kani::any();
+    kani::assume(max < 1000);
+    let limiters = LimiterCollection { limiters: vec![Box::new(MaxCharsCommandSizeLimiter { current_size: 0, max_chars: max })] };
+    let env: HashMap<OsString, OsString> = HashMap::new();
+    let action = ExecAction::Command(vec![OsString::from("cm"), OsString::from("i")]);
+    let base = 3 + 2;
+    match CommandBuilderOptions::new(action, env, limiters, None) {
+        Ok(mut bo) => {
+            assert!(base <= max);
+            let (arg, n) = any_arg(ArgumentKind::SoftTerminated);
+            let r = bo.limiters.try_arg(arg);
+            assert!(r.is_ok() == (base + n + 1 <= max));
+            kani::cover!(r.is_err());
+            kani::cover!(r.is_ok() && base + n + 1 == max);
+            std::mem::forget(r); std::mem::forget(bo);
+        }
+        Err(e) => { assert!(base > max); std::mem::forget(e); }
+    }
+}
+#[kani::proof]
+#[kani::unwind(5)]
+#[kani::stub(alloc::fmt::format, fmt_stub)]
+#[kani::stub(std::hash::RandomState::new, keys_stub)]
+#[kani::stub(alloc::raw_vec::handle_error, he_stub)]
+#[kani::stub(std::alloc::handle_alloc_error, hae_stub)]
+fn c04_initial_args_charged_canary() {
+    let max: usize = kani::any();
+    kani::assume(max < 1000);
+    let limiters = LimiterCollection { limiters: vec![Box::new(MaxCharsCommandSizeLimiter { current_size: 0, max_chars: max })] };
+    let env: HashMap<OsString, OsString> = HashMap::new();
+    let action = ExecAction::Command(vec![OsString::from("cm"), OsString::from("i")]);
+    let r = CommandBuilderOptions::new(action, env, limiters, None);
+    assert!(r.is_ok() == (2 <= max)); // only the initial argument counted: must FAIL
+    std::mem::forget(r);
+}
+
+// ------------------------------------------------------------------------------------------ C06 the system budget formula
+static mut SC_ARG_MAX_VAL: i64 = 0;
+fn sysconf_stub(_name: i32) -> i64 { unsafe { SC_ARG_MAX_VAL } }
+// @harness props=C06 tier=quick cost=400 flags=nomem
+// @exec MaxCharsCommandSizeLimiter::new_system (budget = sysconf(_SC_ARG_MAX) - 2048 - environment strings)
+// @sym sysconf(_SC_ARG_MAX) in 2052..2^40 (only ARG_MAX minus the environment size matters: small values stand for an environment that nearly fills the kernel's budget); environment: empty or one variable "A=b"
+// @bounds environment of 0 or 1 variable (HashMap iteration); sysconf replaced by a symbolic value
+/// The budget handed to the system limiter is exactly ARG_MAX - 2048 - sum(len(name)+1 + len(value)+1): ties the copy of the
+/// formula used in c06_system_budget_step to the code.
+#[kani::proof]
+#[kani::unwind(9)]
+#[kani::stub(alloc::fmt::format, fmt_stub)]
+#[kani::stub(std::hash::RandomState::new, keys_stub)]
+#[kani::stub(alloc::raw_vec::handle_error, he_stub)]
+#[kani::stub(std::alloc::handle_alloc_error, hae_stub)]
+#[kani::stub(uucore::libc::sysconf, sysconf_stub)]
+fn c06_new_system_formula() {
+    let arg_max: i64 = kani::any();
+    // the budget depends only on ARG_MAX - environment: small ARG_MAX values stand for a huge environment
+    kani::assume(arg_max >= 2048 + 4 && arg_max <= (1i64 << 40));
+    unsafe { SC_ARG_MAX_VAL = arg_max; }
+    let mut env: HashMap<OsString, OsString> = HashMap::new();
+    let one: bool = kani::any();
+    if one { env.insert(OsString::from("A"), OsString::from("b")); }
+    let l = MaxCharsCommandSizeLimiter::new_system(&env);
+    let env_size: usize = if one { 4 } else { 0 };
+    assert!(l.max_chars == arg_max as usize - 2048 - env_size);
+    assert!(l.current_size == 0);
+    kani::cover!(one);
+    kani::cover!(!one && arg_max == 131072);
+    kani::cover!(l.max_chars < 4096);
+    std::mem::forget(env);
+}
+#[kani::proof]
+#[kani::unwind(9)]
+#[kani::stub(alloc::fmt::format, fmt_stub)]
+#[kani::stub(std::hash::RandomState::new, keys_stub)]
+#[kani::stub(alloc::raw_vec::handle_error, he_stub)]
+#[kani::stub(std::alloc::handle_alloc_error, hae_stub)]
+#[kani::stub(uucore::libc::sysconf, sysconf_stub)]
+fn c06_new_system_formula_canary() {
+    let arg_max: i64 = kani::any();
+    kani::assume(arg_max >= 131072 && arg_max <= (1i64 << 40));
+    unsafe { SC_ARG_MAX_VAL = arg_max; }
+    let env: HashMap<OsString, OsString> = HashMap::new();
+    let l = MaxCharsCommandSizeLimiter::new_system(&env);
+    assert!(l.max_chars == arg_max as usize); // no headroom: must FAIL
+    std::mem::forget(env);
+}
